@@ -218,6 +218,19 @@ package phase0
 //@   loop 1
 //@     invariant 1 <= i && (forall k :: {indices[k]} 1 <= k && k < i && k < len(indices) ==> indices[k - 1] != indices[k])
 
+
+
+// process_deposit (C03): unless told to skip it, the deposit's Merkle branch (depth DEPOSIT_CONTRACT_TREE_DEPTH + 1,
+// index = the state's next deposit index) must lead to the state's eth1 deposit root
+//@ func ProcessDeposit(spec, epc, state, dep, ignoreSignatureAndProof) err
+//@   property C03
+//@   panics off
+//@   opt weakcalls
+//@   opt inline=closures
+//@   requires state != nil && dep != nil
+//@   assigns anything
+//@   ensures proof: err == nil && !ignoreSignatureAndProof ==> !st_depidx_err(state) && !st_eth1_err(state) && mfold(deposit_data_root(old(dep.Data)), old(seq(dep.Proof)), st_depidx(state), common.DEPOSIT_CONTRACT_TREE_DEPTH + 1) == st_eth1(state).DepositRoot
+
 // BEGIN C18 generated (tools/gen_c18.py in /verif)
 // cancelled: a context cancelled before the call makes it fail; surfaced: a cancellation observed by a poll
 // during the call makes it fail; polled: success after a poll means the context was not cancelled at entry.
@@ -294,7 +307,7 @@ package phase0
 //@     invariant ctx_t > old(ctx_t) ==> !ctx_cancelled(ctx, old(ctx_t))
 
 //@ func ProcessDeposits(ctx, spec, epc, state, ops) err
-//@   property C18
+//@   property C18 C03
 //@   panics off
 //@   requires ctx != nil
 //@   opt weakcalls
@@ -306,6 +319,7 @@ package phase0
 //@   loop *
 //@     invariant ctx_t >= old(ctx_t) && (old(ctx_seen) || !ctx_seen)
 //@     invariant ctx_t > old(ctx_t) ==> !ctx_cancelled(ctx, old(ctx_t))
+//@   ensures c03_count: err == nil ==> !st_eth1_err(state) && !st_depidx_err(state) && len(ops) == min(spec.MAX_DEPOSITS, (st_eth1(state).DepositCount - st_depidx(state)) % 18446744073709551616)
 
 //@ func ProcessEth1Vote(ctx, spec, epc, state, data) err
 //@   property C18
